@@ -349,7 +349,25 @@ func (r *TypeSettingsRegistry) GetByValue(objValue reflect.Value, optTS ...TypeS
 
 		// resolve indirections
 		switch objValue.Kind() {
-		case reflect.Ptr, reflect.Interface:
+		case reflect.Ptr:
+			if objValue.IsNil() {
+				// a nil pointer (e.g. a zero value that is about to be decoded into) can't be dereferenced,
+				// resolve the indirection on the type instead
+				objValue = reflect.Zero(objValue.Type().Elem())
+
+				continue
+			}
+			objValue = objValue.Elem()
+
+		case reflect.Interface:
+			if objValue.IsNil() {
+				// a nil interface has no underlying value to resolve further
+				if len(optTS) > 0 {
+					return optTS[0]
+				}
+
+				return TypeSettings{}
+			}
 			objValue = objValue.Elem()
 
 		default:
